@@ -18,12 +18,13 @@ hypotheses so that they can be discharged by an induction hypothesis about sub-v
 * hash:      `c10_addMap_perm_invariant`, `c10_array_equal_implies_same_hash`,
   `c10_hashable_array_equal_implies_same_hash`, `c10_map_equal_implies_same_hash`,
   `c10_hashable_map_equal_implies_same_hash`, `c10_pointer_equal_implies_same_hash`,
-  `c10_bytes_equal_implies_same_hash`.
+  `c10_bytes_equal_implies_same_hash`, and for the primitive leaves `c10_prim_equal_implies_same_hash`.
 
-Guards. `Prim.nanFree` (NaN ≠ NaN, so Equals is not reflexive on NaN — by IEEE, not a defect) and
-`Prim.sameZeroSign` (F15: `+0 == −0` but the hash is taken over the bit pattern — a defect:
-`c10_equal_implies_same_hash_cex`). A positional guard `g` is threaded through the abstract lemmas by
-instantiating them with `fun a b => eq a b && g a b` (see `c10_equal_implies_same_hash_partial`). -/
+Guards. Only `Prim.nanFree` (NaN ≠ NaN, so Equals is not reflexive on NaN — by IEEE, not a
+defect). The former guard `sameZeroSigns` (F15: `+0 == −0` but the hash was taken over the bit
+pattern) is gone: since `fix: hash -0.0 like +0.0` the hasher normalises zero, and
+`c10_prim_*_equal_implies_same_hash` hold at full strength. Where a schema-level proof needs a
+positional side condition `g`, instantiate the abstract lemmas with `fun a b => eq a b && g a b`. -/
 namespace Restli.Equals
 open Restli Restli.EqualsSpec Restli.Fnv
 
@@ -255,57 +256,34 @@ theorem c10_pointer_equal_implies_same_hash {α : Type} (eq : α → α → Bool
       · simp only [hab, ↓reduceIte] at h
         exact hc a rfl b rfl h h0
 
-/-- The full-strength statement for the comparable primitives: Equal arrays hash alike. -/
-def EqualImpliesSameHash (P : Params) : Prop :=
-  ∀ (l r : List Prim) (h0 : Hash), genericArray Prim.eq l r = true →
-    addArray (Prim.hashInto P) h0 l = addArray (Prim.hashInto P) h0 r
+/-- Go `==`-equal primitives hash alike into any running hash: ints, bools and strings because
+they are identical, floats because `AddFloat32/64` normalise `−0` to `+0` before taking the bits
+(and NaN is `==` to nothing). This is the element-level `hash_congr` of the comparable types. -/
+theorem c10_prim_equal_implies_same_hash (P : Params) (a b : Prim) (h : Prim.eq a b = true)
+    (h0 : Hash) : Prim.hashInto P h0 a = Prim.hashInto P h0 b :=
+  Prim.hashInto_congr P a b h h0
 
-/-- **F15.** It is false on the current code: `[+0.0]` and `[−0.0]` are Equal (`==`) but hash over
-their bit patterns. Witness confirmed on the real code (harness corpus, `HashFloat64`). -/
-theorem c10_equal_implies_same_hash_cex : ¬ EqualImpliesSameHash paramsV2 := by
-  intro h
-  have := h [.f64 0] [.f64 0x8000000000000000] (newHash paramsV2) (by decide)
-  revert this
-  decide
+/-- **Full strength, no guard**: `Comparable*`-Equal arrays of primitives hash alike (`AddArray`
+with the primitive hasher), for all hasher constants — `[+0.0]` and `[−0.0]` included. -/
+theorem c10_prim_array_equal_implies_same_hash (P : Params) (l r : List Prim) (h0 : Hash)
+    (h : genericArray Prim.eq l r = true) :
+    addArray (Prim.hashInto P) h0 l = addArray (Prim.hashInto P) h0 r :=
+  c10_array_equal_implies_same_hash Prim.eq (Prim.hashInto P) l r
+    (fun a _ b _ he h => Prim.hashInto_congr P a b he h) h h0
 
-/-- the positional guard: no position holds a `+0`/`−0` pair -/
-def sameZeroSigns (l r : List Prim) : Bool := (l.zip r).all (fun p => Prim.sameZeroSign p.1 p.2)
+/-- **Full strength, no guard**: `ComparableMap`-Equal maps of primitives hash alike. -/
+theorem c10_prim_map_equal_implies_same_hash (P : Params) (l r : List (Bytes × Prim)) (h0 : Hash)
+    (hl : KeysNodup l) (hr : KeysNodup r) (h : genericMap Prim.eq l r = true) :
+    addMap P (Prim.hashInto P) h0 l = addMap P (Prim.hashInto P) h0 r :=
+  c10_map_equal_implies_same_hash P Prim.eq (Prim.hashInto P) l r hl hr
+    (fun a _ b _ he h => Prim.hashInto_congr P a.2 b.2 he h) h h0
 
-/-- With the guard `sameZeroSigns` (no `+0/−0` pair at any position) Equal arrays of primitives
-hash alike, for all hasher constants. -/
-theorem c10_equal_implies_same_hash_partial (P : Params) (l r : List Prim) (h0 : Hash)
-    (h : genericArray Prim.eq l r = true) (hz : sameZeroSigns l r = true) :
-    addArray (Prim.hashInto P) h0 l = addArray (Prim.hashInto P) h0 r := by
-  have hrel := (genericArray_iff Prim.eq l r).1 h
-  have hrel' : ArrRel (fun a b => Prim.eq a b && Prim.sameZeroSign a b) l r := by
-    clear h
-    induction hrel with
-    | nil => exact ArrRel.nil
-    | @cons a b l r hab _ ih =>
-      simp only [sameZeroSigns, List.zip_cons_cons, List.all_cons, Bool.and_eq_true] at hz
-      exact ArrRel.cons (by simp [hab, hz.1]) (ih hz.2)
-  refine hrel'.addArray_eq _ ?_ h0
-  intro a _ b _ he h
-  simp only [Bool.and_eq_true] at he
-  rw [Prim.eq_imp_same a b he.1 he.2]
-
-/-- the same guard for maps of primitives, per key -/
-theorem c10_map_equal_implies_same_hash_partial (P : Params) (l r : List (Bytes × Prim)) (h0 : Hash)
-    (hl : KeysNodup l) (hr : KeysNodup r) (h : genericMap Prim.eq l r = true)
-    (hz : ∀ k lv rv, (k, lv) ∈ l → (k, rv) ∈ r → Prim.sameZeroSign lv rv = true) :
-    addMap P (Prim.hashInto P) h0 l = addMap P (Prim.hashInto P) h0 r := by
-  have hrel := (genericMap_iff Prim.eq l r hl hr).1 h
-  have hrel' : MapRel (fun a b => Prim.eq a b && Prim.sameZeroSign a b) l r :=
-    ⟨fun k lv hin => by
-        obtain ⟨rv, hr', he⟩ := hrel.1 k lv hin
-        exact ⟨rv, hr', by simp [he, hz k lv rv hin hr']⟩,
-     fun k rv hin => by
-        obtain ⟨lv, hl', he⟩ := hrel.2 k rv hin
-        exact ⟨lv, hl', by simp [he, hz k lv rv hl' hin]⟩⟩
-  refine hrel'.addMap_eq hl hr P _ ?_ h0
-  intro a _ b _ he h
-  simp only [Bool.and_eq_true] at he
-  rw [Prim.eq_imp_same a.2 b.2 he.1 he.2]
+/-- **Full strength, no guard**: `ComparablePointer`-Equal optional primitives hash alike. -/
+theorem c10_prim_pointer_equal_implies_same_hash (P : Params) (p q : Option (Ptr Prim)) (h0 : Hash)
+    (hcoh : ∀ a ∈ p, ∀ b ∈ q, Ptr.Coherent a b) (h : genericPointer Prim.eq p q = true) :
+    addOpt (Prim.hashInto P) h0 (p.map Ptr.val) = addOpt (Prim.hashInto P) h0 (q.map Ptr.val) :=
+  c10_pointer_equal_implies_same_hash Prim.eq (Prim.hashInto P) p q hcoh
+    (fun a _ b _ he h => Prim.hashInto_congr P a.val b.val he h) h h0
 
 /-! ## Non-vacuity -/
 
@@ -318,10 +296,12 @@ example : addMap paramsV2 (Prim.hashInto paramsV2) (newHash paramsV2)
       [([], .i32 0), ([98], .i32 2), ([97], .i32 1)] := by decide
 example : KeysNodup [([97], Prim.i32 1), ([98], .i32 2)] := by
   simp [KeysNodup]
-/-- the guards are satisfiable and not always true -/
-example : sameZeroSigns [.f64 0, .i32 5] [.f64 0, .i32 5] = true := by decide
-example : sameZeroSigns [.f64 0] [.f64 0x8000000000000000] = false := by decide
+/-- the former counter-example: `[+0.0]` and `[−0.0]` are Equal and now hash alike -/
 example : genericArray Prim.eq [.f64 0] [.f64 0x8000000000000000] = true := by decide
+example : addArray (Prim.hashInto paramsV2) (newHash paramsV2) [.f64 0]
+    = addArray (Prim.hashInto paramsV2) (newHash paramsV2) [.f64 0x8000000000000000] := by decide
+example : Prim.hashInto paramsV2 (newHash paramsV2) (.f32 0x80000000)
+    = Prim.hashInto paramsV2 (newHash paramsV2) (.f32 0) := by decide
 /-- NaN: not reflexive by value, reflexive by pointer identity -/
 example : genericArray Prim.eq [.f64 0x7FF8000000000001] [.f64 0x7FF8000000000001] = false := by decide
 example : genericPointer Prim.eq (some ⟨1, .f64 0x7FF8000000000001⟩) (some ⟨1, .f64 0x7FF8000000000001⟩) = true := by decide
